@@ -18,7 +18,7 @@ RULE = (
     'delete a value file; truncate/extend a binary value file; add stray files (in an existing leaf directory, in new nested '
     'directories, at top level, named *.val or otherwise); add empty directories (nested); overwrite Settings.count / '
     'Settings.size. quick tier: generated damage sets; thorough tier additionally enumerates EVERY subset of <= 3 damage kinds. '
-    'Oracle: the expected inconsistencies are derived from the damage list; check() reports exactly those (for empty '
+    'Before the damage an aborted transaction block may have replaced and deleted items (contents as before). Oracle: the expected inconsistencies are derived from the damage list; check() reports exactly those (for empty '
     'directories: at least every directory without entries, at most the directories without files below them) and leaves the '
     'audit snapshot unchanged; check(fix=True) reports the same non-directory inconsistencies; a second check() returns []; '
     'undamaged items are value-identical, resized binaries are readable with the file\'s current content, items whose file '
